@@ -149,6 +149,15 @@ def interpo (F : FieldImpl) (d : Nat) (n twn seed off sh : String) : String :=
     | some itw => res F d (interpolatePolyWithOffset (elemOps F) (baseOps F) maxLoop v itw (F.new off))
   | _, _, _, _, _ => "bad-op"
 
+/-- container widths the harness instantiates (`0` = a plain slice of elements) -/
+def fiWidth (w : Nat) : Bool := w == 0 || w == 1 || w == 2 || w == 3 || w == 4 || w == 8
+
+/-- `n` rows of `w` elements of extension degree `d` (raw words), generated like the harness does -/
+def fiRows (F : FieldImpl) (d w n seed : Nat) : Array (Array Nat) :=
+  let coords := genCoords F seed (n * w) d .rand
+  (List.range n).toArray.map fun r =>
+    (List.range (w * d)).toArray.map fun k => F.new (coords.getD (r * w * d + k) 0)
+
 def handleF (F : FieldImpl) (d : Nat) : List String → String
   | ["eval", n, twn, seed, deg] =>
     match n.toNat?, twn.toNat?, seed.toNat?, parseDeg deg with
@@ -355,6 +364,36 @@ def handleF (F : FieldImpl) (d : Nat) : List String → String
                 s!"{acc} | {n * t2l} {cols} {summary flatL d} | {rows} {rm.elementsPerRow / d} {summary cells d} {summary (rm.data.map F.asInt) 1}"
         | _, _ => "panic"
     | _, _, _, _, _, _ => "bad-op"
+  -- the building blocks of `FftInputs` on a slice (w = 0) or on rows `[E; w]`: a row is the array of its w*d
+  -- base coordinates and every operation acts coordinate-wise
+  | ["bfly", n, seed, i, stride, tw, w] =>
+    match n.toNat?, seed.toNat?, i.toNat?, stride.toNat?, tw.toNat?, w.toNat? with
+    | some n, some seed, some i, some stride, some tw, some w =>
+      if !(fiWidth w) then "bad-op" else
+      if tooBig n 1 (max w 1 * d) then "-" else
+      let a := fiRows F d (max w 1) n seed
+      match butterfly (elemOps F) a i stride, butterflyTw (elemOps F) (F.new tw) a i stride with
+      | some x, some y => s!"{res F d (some x)} {res F d (some y)}"
+      | _, _ => "panic"
+    | _, _, _, _, _, _ => "bad-op"
+  | ["shift", n, seed, off, inc, w] =>
+    match n.toNat?, seed.toNat?, parseOff F off, parseOff F inc, w.toNat? with
+    | some n, some seed, some off, some inc, some w =>
+      if !(fiWidth w) then "bad-op" else
+      if tooBig n 1 (max w 1 * d) then "-" else
+      let a := fiRows F d (max w 1) n seed
+      s!"{res F d (some (shiftBy (elemOps F) a (F.new off)))} {res F d (some (shiftBySeries (elemOps F) (baseOps F) a (F.new off) (F.new inc)))}"
+    | _, _, _, _, _ => "bad-op"
+  | ["fftn", n, seed, w] =>
+    match n.toNat?, seed.toNat?, w.toNat? with
+    | some n, some seed, some w =>
+      if !(fiWidth w) || w = 0 then "bad-op" else
+      if tooBig n 1 (w * d) then "-" else
+      let a := fiRows F d w n seed
+      match getTwiddles (baseOps F) n with
+      | none => "panic"
+      | some tw => res F d ((fftTop (elemOps F) maxLoop tw a).bind permute)
+    | _, _, _ => "bad-op"
   | ["colmat", n, cols, seed, blowup, off] =>
     match n.toNat?, cols.toNat?, seed.toNat?, blowup.toNat?, parseOff F off with
     | some n, some cols, some seed, some blowup, some off =>
